@@ -1,4 +1,7 @@
 """Common body of the engine-A checks that share the C01 exploration core (C01-C06)."""
+import json
+import os
+import sys
 import time
 
 import family
@@ -32,9 +35,14 @@ def families(tier, want_g3=True, fault_codes=False):
 
 
 def run_check(prop, argv, props, rule, level="model_checking", quick_budget=240, thorough_budget=2400, fam_fn=families,
-              extra_assumptions=()):
+              extra_assumptions=(), process_level=None):
+    """process_level: optional callable(check) -> dict merged into coverage (engine-B part of the check)."""
     c = Check(prop, level, argv)
     if c.replay:
+        rj = json.load(open(c.replay))
+        if rj.get("engine") == "rb":
+            import rbchecks
+            sys.exit(rbchecks.replay(rj))
         nxcheck.replay(c, props)
     budget = quick_budget if c.tier == "quick" else thorough_budget
     c.set_budget(budget)
@@ -57,7 +65,28 @@ def run_check(prop, argv, props, rule, level="model_checking", quick_budget=240,
             exhaustive = False
         total = agg if total is None else nxcheck.merge(total, agg)
     cov = nxcheck.coverage(total, rule, fam_info)
-    cov["traces_validated_against_impl"] = total["schedules"]
-    cov["explanation"] = ("the explored system IS the implementation (real ninja main loop in process); every schedule is an "
-                          "execution of the real code, so every trace counts as validated against it")
+    # Trace conformance against the unmodified executable (engine B)
+    conf = {"traces": 0, "invocations": 0, "disagreements": []}
+    if os.environ.get("VERIF_NO_RB") != "1" and c.time_left() > 20:
+        import conformance
+        scs = []
+        for name, fam, depth, devbound in fam_fn(c.tier):
+            for sc in fam:
+                if sc.get("family", "").startswith(("G(", "cycles(")) or "manifest-regen" in sc.get("tags", []):
+                    continue
+                scs.append(sc)
+        if c.tier == "quick":
+            scs = scs[:40]
+        conf = conformance.run(scs, per_scenario=2 if c.tier == "quick" else 10)
+        for d in conf["disagreements"][:5]:
+            sys.stderr.write("CONFORMANCE DISAGREEMENT (harness vs real binary, not a property verdict): %s\n" % json.dumps(d)[:500])
+    cov["traces_validated_against_impl"] = conf["traces"]
+    cov["real_binary_invocations_compared"] = conf["invocations"]
+    cov["conformance_disagreements"] = conf["disagreements"][:10]
+    cov["explanation"] = ("states/transitions/schedules are executions of the real ninja main loop in process (engine A); "
+                          "traces_validated_against_impl counts the histories that were additionally replayed on the unmodified "
+                          "ninja executable with gated helper commands (engine B) and compared: exit status, started commands, "
+                          "'no work to do', all file contents")
+    if process_level is not None and os.environ.get("VERIF_NO_RB") != "1":
+        cov.update(process_level(c))
     c.finish(cov, assumptions=ASSUMPTIONS + list(extra_assumptions), exhaustive=exhaustive)
